@@ -142,6 +142,9 @@ func (cm *cmafIngesterMgr) NewCmafIngester(req CmafIngesterSetup) (nr uint64, er
 			mimeType = "audio/mp4"
 		case "text":
 			mimeType = "application/mp4"
+		case "image":
+			log.Info("CMAF ingest does not carry images. Skipping adaptation set", "contentType", contentType)
+			continue
 		default:
 			return 0, fmt.Errorf("unknown content type: %s", contentType)
 		}
